@@ -68,6 +68,7 @@ type Profile struct {
 	MaxDepth   int
 	Runtime    bool // restrict to shapes the runtime driver can drive (exported methods, exported local types)
 	SrcName    string // force the source package name ("" = random)
+	SrcClash   bool   // source directory differs from the package name and a dependency shares the source package's name
 	Cluster    bool   // three same-named packages reached only through one func type of a hub package's interface
 	Regen      bool // regeneration corpus: while KF-regeneration-alias-feedback is open, no parameter name (user-written
 	// or type-derived) may equal the name of a dependency package (such a parameter is renamed in the first run
@@ -276,6 +277,9 @@ func NewTree(seed int64, prof Profile, hz Hazards) *Tree {
 	default:
 		t.SrcDir = "src/" + t.SrcName
 	}
+	if prof.SrcClash {
+		t.SrcDir = "pkg/" + t.SrcName + "-go"
+	}
 	t.SrcPath = t.ModPath + "/" + t.SrcDir
 	b.makeDeps()
 	b.makeLocals()
@@ -317,6 +321,8 @@ func (b *builder) makeDeps() {
 	for i := 0; i < b.prof.NDeps; i++ {
 		var name string
 		switch {
+		case b.prof.SrcClash && i == 0:
+			name = t.SrcName // a dependency named like the source package
 		case len(names) > 0 && b.chance(b.prof.SameNames):
 			name = b.pick(names)
 		case b.chance(0.25) && !(b.prof.Regen && !b.hz.RegenAliasFeedback):
